@@ -28,6 +28,17 @@ class MM(Case):
         s.dom = dom_for(T); s.depth_limit = 2 * K + 2
 
 
+class CMM(Case):
+    """complex element types: same harness, reference in std::complex arithmetic, compared component-wise over exact reals"""
+    def __init__(s, T, M, K, N, form):
+        a = Buf('a', T, M * K); b = Buf('b', T, K * N); c = Buf('c', T, M * N, 'out'); X = cxx(T)
+        expr = 'A % B' if form == 'lazy' else 'matmul(A,B)'
+        k = f'Tensor<{X},{M},{K}> A(a); Tensor<{X},{K},{N}> B(b); Tensor<{X},{M},{N}> C = {expr}; ' + copy_out('C', 'c', M * N)
+        r = f'for(int i=0;i<{M};++i) for(int j=0;j<{N};++j){{ {X} s=0; for(int k=0;k<{K};++k) s+=a[i*{K}+k]*b[k*{N}+j]; c[i*{N}+j]=s; }}'
+        Case.__init__(s, f'cmm{form}_{SHORT[T]}_{M}_{K}_{N}', [a, b, c], k, r, desc=f'{form} {X} {M}x{K}x{N}')
+        s.dom = 'real'; s.depth_limit = 4 * K + 4; s.T, s.M, s.K, s.N, s.form = T, M, K, N, form
+
+
 def shapes(tier):
     S = set()
     small = range(1, 5) if tier == 'quick' else range(1, 8)
@@ -57,6 +68,11 @@ def cases(tier, cfg, seed):
             if n == 1 and k > 1: out.append(MM(T, m, k, 1, 'mv'))
             if m == 1 and k > 1: out.append(MM(T, 1, k, n, 'vm'))
             if (m * 7 + k * 3 + n) % (4 if tier == 'quick' else 2) == 0: out.append(MM(T, m, k, n, 'lazy'))
+    cshapes = [(1, 1, 1), (2, 2, 2), (3, 3, 3), (4, 4, 4), (1, 3, 2), (2, 3, 5), (3, 2, 1), (5, 2, 3), (2, 5, 9), (8, 2, 8)] if tier == 'quick' else [(m, k, n) for m in range(1, 6) for k in range(1, 5) for n in range(1, 6)] + [(2, 5, 9), (8, 2, 8), (3, 3, 17), (9, 9, 9)]
+    for T in ('cdouble', 'cfloat'):
+        for (m, k, n) in cshapes:
+            out.append(CMM(T, m, k, n, 'mm'))
+            if (m + k + n) % 2 == 0: out.append(CMM(T, m, k, n, 'lazy'))
     return out
 
 
@@ -64,12 +80,12 @@ def cfgs(tier): return main_cfgs(tier)
 
 
 def bounds(tier):
-    return {'shapes': len(shapes(tier)), 'max_dim': max(max(s) for s in shapes(tier)), 'types': ALLT, 'forms': ['matmul(A,B)', 'A % B', 'matmul(A,v)', 'matmul(v,B)'],
-            'outside': 'shapes not listed; complex element types; MKL/LIBXSMM back ends; overflow/NaN in the rounding clause'}
+    return {'shapes': len(shapes(tier)), 'max_dim': max(max(s) for s in shapes(tier)), 'types': ALLT + ['complex<float>', 'complex<double>'], 'forms': ['matmul(A,B)', 'A % B', 'matmul(A,v)', 'matmul(v,B)'],
+            'outside': 'shapes not listed; MKL/LIBXSMM back ends; overflow/NaN in the rounding clause'}
 
 
 def mandatory(case_id, cfg_key):
-    return cfg_key.split('-')[0] in build.MAIN_ISAS and '_i64_' not in case_id
+    return False
 
 
 def post_case(c, cfg, r):
